@@ -4,7 +4,7 @@
   "C12"
  ],
  "kind": "K4",
- "tier": "thorough",
+ "tier": "experimental",
  "timeout": 900,
  "defines": [
   "ZSTD_MULTITHREAD",
